@@ -52,6 +52,8 @@ def h_submit(tier):
                                                     aliases=["RUNNING", "SUSPENDED", "CONFIGURING"]), **_HO),
         _ob("H-submit/local", H, "h_submit", dict(shapes=["chain3", "join3", "fork3"], bss=[3], maxns=[None], local=True,
                                                    procs=2), **_HO),
+        _ob("H-submit/procs", H, "h_submit", dict(shapes=["indep3", "fork3"], bss=[3], maxns=[None], fails=False, cancel_flags=False,
+                                                   cpus=2), **_HO),
         _ob("H-submit/race", H, "h_submit", dict(shapes=["indep2"], bss=[1], maxns=[None, 1], fails=False, cancel_flags=False,
                                                   round_yields=True), **_HO),
     ]
